@@ -50,6 +50,12 @@ Example C14_name_collisions :
   to_pascal_case "a_1" = to_pascal_case "a1" /\ to_snake_case "HTTPServer" = to_snake_case "HttpServer".
 Proof. vm_compute. split; reflexivity. Qed.
 
+(* a raw identifier contributes its bare name to every derived name (fix a546ccd) *)
+Example C14_raw_identifier_names :
+  to_snake_case "r#loop" = "loop" /\ storage_field "r#loop" = "__state_data_loop" /\ to_snake_case "r#HTTPServer" = "http_server" /\
+  to_snake_case "rr#a" = "rr#a".
+Proof. vm_compute. repeat split; reflexivity. Qed.
+
 Example C14_example : WF ex_defn.
 Proof. apply (accepted_is_wf ex_defn ex_machine). exact ex_front. Qed.
 
